@@ -9,6 +9,7 @@ use shadowvm::*;
 use std::sync::atomic::Ordering;
 use vcommon::*;
 
+mod modes;
 mod prog;
 
 fn main() {
@@ -36,6 +37,10 @@ pub fn sem_of(code: u64) -> AllocationSemantics {
         _ => AllocationSemantics::NonMoving,
     }
 }
+
+/// Cycle mode (C09) allocates hundreds of thousands of objects whose placement nobody judges:
+/// their AllocCall/Alloc events are not logged (failures and everything else still are).
+pub static QUIET_ALLOC: std::sync::atomic::AtomicBool = std::sync::atomic::AtomicBool::new(false);
 
 pub struct Driver<const V: u32> {
     pub next_id: u64,
@@ -78,13 +83,16 @@ impl<const V: u32> Driver<V> {
         let sem = sem_of(sem_code);
         let id = self.next_id;
         self.next_id += 1;
-        ev(Obj::new("AllocCall")
-            .int("id", id as i64)
-            .int("m", m as i64)
-            .int("sem", sem_code as i64)
-            .int("sz", size as i64)
-            .int("al", align as i64)
-            .int("off", offset as i64));
+        let quiet = QUIET_ALLOC.load(Ordering::Relaxed);
+        if !quiet {
+            ev(Obj::new("AllocCall")
+                .int("id", id as i64)
+                .int("m", m as i64)
+                .int("sem", sem_code as i64)
+                .int("sz", size as i64)
+                .int("al", align as i64)
+                .int("off", offset as i64));
+        }
         let mu = mutator::<V>(m);
         let a = memory_manager::alloc::<ShadowVM<V>>(mu, size, align, offset, sem);
         if a.is_zero() {
@@ -117,6 +125,9 @@ impl<const V: u32> Driver<V> {
         if matches!(sem_code, 1 | 3 | 4 | 5) {
             walker::IMMORTALS.lock().unwrap().push((r, id));
         }
+        if quiet {
+            return r;
+        }
         ev(Obj::new("Alloc")
             .int("id", id as i64)
             .int("m", m as i64)
@@ -131,6 +142,9 @@ impl<const V: u32> Driver<V> {
             .json("s", &proj(s))
             .int("lo", (s & 4095) as i64)
             .str("raw", &format!("{:x}", s))
+            .str("sp", mmtk::verif::space_name_of_address(a))
+            .str("spEnd", mmtk::verif::space_name_of_address(a + (size - 8)))
+            .str("spSem", mmtk::verif::space_name_for_semantics(mu, sem))
             .bool("zero", zero)
             .bool("inMMTk", memory_manager::is_in_mmtk_spaces(o) && memory_manager::is_mapped_address(a))
             .int("h", payload_hash(r)));
